@@ -367,6 +367,7 @@ def run(repo='/repo', tier='quick'):
     c18e(db, res)
     c18f(db, res)
     c18g(db, res)
+    c18h(db, res, nl)
     res.assumptions += ['"later calls keep honouring the API contract" after a failed allocation is not decided', 'leaks on failure paths are not C18 violations (the statement does not ask for leak freedom under failure)',
                         'callees outside the library (libc, zlib) are trusted to tolerate what the code passes them']
     return res
@@ -548,3 +549,55 @@ def c18g(db, res):
             res.check(after_success(b, i), 'C18.g', 'htp_gzip_decompressor_decompress:LzmaDec_Init', 'the decoder is initialised only after LzmaDec_Allocate succeeded',
                       'LzmaDec_Init runs on a path that has not passed the success test of LzmaDec_Allocate', c['loc'])
     res.floor('C18.g', 'step marker / LzmaDec_Init sites', n, 2)
+
+
+def c18h(db, res, nl):
+    """Every consumer of a header / parameter record that sits in a table reads its name and value without a NULL test. A
+    record that is already in its table therefore never has the result of a may-fail call stored straight into one of those
+    fields: the string is grown into a temporary, the temporary is tested, and only then the field is updated (so a failed
+    allocation leaves the old, valid value in place)."""
+    res.rule('C18.h', 'a record that is already in its table keeps a valid name and value: no field of a header / parameter record obtained from a table or list lookup is assigned the result of a may-fail call directly (it goes through a tested temporary)')
+    # may-fail, closed over wrappers that hand a failure on as an explicit NULL (bstr_add* -> bstr_expand -> realloc)
+    mayfail = set(nl.mayfail)
+    grew = True
+    while grew:
+        grew = False
+        for n_, g in db.fn.items():
+            if n_ in mayfail or not g.blocks:
+                continue
+            if any(c.get('callee') in mayfail for b_, i_, c in g.calls()) and any(P.ret_value(st_) is not None and (is_lit(P.ret_value(st_), 0) or lit_name(P.ret_value(st_)) == 'NULL' or (P.ret_value(st_).get('k') == 'call' and P.ret_value(st_).get('callee') in mayfail)) for b_, i_, st_ in (g.returns() or [])) \
+                    and '*' in (g.ret if isinstance(getattr(g, 'ret', ''), str) else '*'):
+                mayfail.add(n_)
+                grew = True
+    n = 0
+    lookups = ('htp_table_get', 'htp_table_get_c', 'htp_table_get_mem', 'htp_table_get_index', 'htp_list_get', 'htp_list_array_get')
+    for name, f in sorted(db.fn.items()):
+        if not f.blocks:
+            continue
+        resident = set()
+        for b, i, st in f.stmts():
+            for d in nodes(st, lambda y: y.get('k') == 'decl'):
+                for v in d['vars']:
+                    ini = strip(v['init']) if v.get('init') is not None else None
+                    if ini is not None and ini.get('k') == 'call' and ini.get('callee') in lookups:
+                        resident.add(v['name'])
+            for a in nodes(st, lambda y: y.get('k') == 'assign' and y['op'] == '=' and strip(y['l']).get('k') == 'var'):
+                r = strip(a['r'])
+                if r is not None and r.get('k') == 'call' and r.get('callee') in lookups:
+                    resident.add(strip(a['l'])['name'])
+        if not resident:
+            continue
+        for b, i, st in f.stmts():
+            for a in nodes(st, lambda y: y.get('k') == 'assign' and y['op'] == '=' and strip(y['l']).get('k') == 'member'):
+                l = strip(a['l'])
+                if l.get('rec') not in ('htp_header_t', 'htp_param_t') or l.get('field') not in ('name', 'value'):
+                    continue
+                base = strip(l.get('base') or l.get('e') or {})
+                if base.get('k') != 'var' or base['name'] not in resident:
+                    continue
+                n += 1
+                r = strip(a['r'])
+                direct = r is not None and r.get('k') == 'call' and r.get('callee') in mayfail
+                res.check(not direct, 'C18.h', '%s:%s->%s' % (name, base['name'], l['field']), 'updated from a tested temporary',
+                          '%s stores the result of %s() straight into %s->%s of a record that is already in its table: when the allocation fails the record stays in the table with a NULL %s, and every consumer reads it without a test' % (name, (r or {}).get('callee'), base['name'], l['field'], l['field']), a['loc'])
+    res.floor('C18.h', 'updates of resident header / parameter records', n, 3)
